@@ -210,6 +210,15 @@ pub enum GridKind {
     Cartesian2,
     Cartesian3,
     Cylindrical,
+    /// periodic (possibly non-orthogonal) unit cells: `PeriodicConvolver` (complex FFT), used by Pore2D / Pore3D
+    Periodical2,
+    Periodical3,
+}
+
+impl GridKind {
+    pub fn periodic(&self) -> bool {
+        matches!(self, GridKind::Periodical2 | GridKind::Periodical3)
+    }
 }
 
 impl GridKind {
@@ -221,6 +230,8 @@ impl GridKind {
             GridKind::Cartesian2 => "cartesian2",
             GridKind::Cartesian3 => "cartesian3",
             GridKind::Cylindrical => "cylindrical",
+            GridKind::Periodical2 => "periodical2",
+            GridKind::Periodical3 => "periodical3",
         }
     }
 }
@@ -235,13 +246,18 @@ pub fn make_grid(kind: GridKind, points: usize, length: f64) -> Grid {
     }
 }
 
-pub fn make_grid_nd(kind: GridKind, axes: &[(usize, f64)]) -> Grid {
+pub fn make_grid_nd(kind: GridKind, axes: &[(usize, f64)], angles_deg: &[f64]) -> Grid {
+    use quantity::DEGREES;
     let cart = |i: usize| Axis::new_cartesian(axes[i].0, Length::from_reduced(axes[i].1), None);
     match kind {
         GridKind::Cartesian | GridKind::Spherical | GridKind::Polar => make_grid(kind, axes[0].0, axes[0].1),
         GridKind::Cartesian2 => Grid::Cartesian2(cart(0), cart(1)),
         GridKind::Cartesian3 => Grid::Cartesian3(cart(0), cart(1), cart(2)),
         GridKind::Cylindrical => Grid::Cylindrical { r: Axis::new_polar(axes[0].0, Length::from_reduced(axes[0].1)), z: cart(1) },
+        GridKind::Periodical2 => Grid::Periodical2(cart(0), cart(1), angles_deg[0] * DEGREES),
+        GridKind::Periodical3 => {
+            Grid::Periodical3(cart(0), cart(1), cart(2), [angles_deg[0] * DEGREES, angles_deg[1] * DEGREES, angles_deg[2] * DEGREES])
+        }
     }
 }
 
@@ -270,9 +286,11 @@ pub fn flat_points(grid: &Grid) -> (Vec<Vec<f64>>, Array1<f64>) {
 }
 
 /// smooth positive modulation along the axes other than the first (1 x points, broadcast over the segments)
-pub fn modulation(pts: &[Vec<f64>], lens: &[f64]) -> Array2<f64> {
+pub fn modulation(pts: &[Vec<f64>], lens: &[f64], periodic: bool) -> Array2<f64> {
+    // mirror-symmetric at the ends (DCT grids) resp. periodic over the cell (periodic grids)
+    let f = if periodic { 2.0 } else { 1.0 };
     Array2::from_shape_fn((1, pts.len()), |(_, k)| {
-        (1..lens.len()).map(|d| 1.0 + 0.15 * (std::f64::consts::PI * pts[k][d] / lens[d] * (d as f64)).cos()).product::<f64>()
+        (1..lens.len()).map(|d| 1.0 + 0.15 * (f * std::f64::consts::PI * pts[k][d] / lens[d] * (d as f64) + 0.4 * (f - 1.0)).cos()).product::<f64>()
     })
 }
 
@@ -346,8 +364,12 @@ pub fn flatten(z: f64, a: f64, b: f64) -> f64 {
 
 /// packing fraction as a function of the coordinate
 pub fn eta_at(p: &ProfileSpec, z: f64) -> f64 {
-    let z = if p.flat_ends { flatten(z, 0.12 * p.length, 0.88 * p.length) } else { z };
-    if p.kind == "tanh" {
+    let z = if p.flat_ends && p.kind != "periodic" { flatten(z, 0.12 * p.length, 0.88 * p.length) } else { z };
+    if p.kind == "periodic" {
+        // smooth, positive and periodic over the axis length (two lamellae per cell)
+        let x = 2.0 * std::f64::consts::PI * (z - p.z0) / p.length;
+        0.55 * p.eta_hi * (1.0 + p.amp * x.cos() + 0.5 * p.amp * (2.0 * x).sin())
+    } else if p.kind == "tanh" {
         p.eta_lo + (p.eta_hi - p.eta_lo) * 0.5 * (1.0 + ((z - p.z0) / p.width).tanh())
     } else {
         let avg = 0.6 * p.eta_hi;
